@@ -31,6 +31,7 @@ type Bounds struct {
 	SolverMS int    `json:"solver_ms,omitempty"`
 	Steps    int    `json:"steps,omitempty"`
 	Conf     int    `json:"conformance_runs,omitempty"`
+	BranchMS int    `json:"branch_ms,omitempty"`
 }
 
 type PropConf struct {
@@ -43,6 +44,7 @@ type PropConf struct {
 	Thorough    Bounds            `json:"thorough"`
 	PerHarness  map[string]Bounds `json:"per_harness"`
 	SkipQuick   []string          `json:"thorough_only"`
+	Merge       []string          `json:"merge"`
 	Bounds      map[string]string `json:"bounds_text"`
 }
 
@@ -76,6 +78,9 @@ func merge(base, over Bounds) Bounds {
 	}
 	if over.Conf != 0 {
 		base.Conf = over.Conf
+	}
+	if over.BranchMS != 0 {
+		base.BranchMS = over.BranchMS
 	}
 	return base
 }
@@ -357,7 +362,7 @@ func cmdCheck(args []string) int {
 	}
 	fmt.Printf("[%s] loaded %v in %.1fs (ssa %.1fs)\n", prop, pc.Pkgs, w.LoadTime.Seconds(), w.SSATime.Seconds())
 
-	base := Bounds{Unwind: 16, MaxPaths: 200000, Time: "4m", SolverMS: 20000, Steps: 3000000, Conf: 40}
+	base := Bounds{Unwind: 16, MaxPaths: 200000, Time: "4m", SolverMS: 20000, Steps: 3000000, Conf: 40, BranchMS: 1500}
 	tb := merge(base, pc.Quick)
 	if *tier == "thorough" {
 		tb = merge(merge(base, Bounds{Time: "20m", Conf: 200, SolverMS: 60000}), pc.Thorough)
@@ -456,39 +461,66 @@ func cmdCheck(args []string) int {
 			p.Close()
 		}
 	}()
-	for _, h := range hs {
+	// bounds per harness
+	boundsOf := func(name string) (Bounds, sx.Config) {
 		b := tb
-		if o, ok := pc.PerHarness[h.fn.Name()]; ok {
+		if o, ok := pc.PerHarness[name]; ok {
 			b = merge(b, o)
 		}
 		if *tier == "thorough" {
-			if o, ok := pc.PerHarness[h.fn.Name()+"@thorough"]; ok {
+			if o, ok := pc.PerHarness[name+"@thorough"]; ok {
 				b = merge(b, o)
 			}
 		}
 		maxTime, _ := time.ParseDuration(b.Time)
-		tierN := uint64(0)
+		tierN := 0
 		if *tier == "thorough" {
 			tierN = 1
 		}
-		conf := sx.Config{Unwind: b.Unwind, MaxSteps: b.Steps, MaxPaths: b.MaxPaths, MaxTime: maxTime, SolverKind: *solverKind, SolverMS: b.SolverMS, Tier: int(tierN)}
-		pool := pools[h.rel]
-		if pool == nil {
-			tp := time.Now()
-			pool, err = w.NewPool(conf, h.sp, *workers)
-			if err != nil {
-				fmt.Fprintln(os.Stderr, err)
-				return 2
+		mergeSet := map[string]bool{}
+		for _, f := range pc.Merge {
+			mergeSet[f] = true
+		}
+		return b, sx.Config{Merge: mergeSet, Unwind: b.Unwind, MaxSteps: b.Steps, MaxPaths: b.MaxPaths, MaxTime: maxTime, SolverKind: *solverKind, SolverMS: b.SolverMS,
+			BranchMS: b.BranchMS, Tier: tierN}
+	}
+	// explore all harnesses of a package concurrently
+	explored := map[*ssa.Function]*sx.HarnessResult{}
+	for _, rel := range pc.Pkgs {
+		var jobs []sx.Job
+		var sp *ssa.Package
+		for _, h := range hs {
+			if h.rel != rel {
+				continue
 			}
-			pools[h.rel] = pool
-			fmt.Printf("[%s] %d machines for %s initialised in %.1fs (%d init notes)\n", prop, len(pool.Ms), h.rel, time.Since(tp).Seconds(), len(pool.Ms[0].InitNotes))
-			if *verbose {
-				for _, n := range pool.Ms[0].InitNotes {
-					fmt.Println("   init-note:", n)
-				}
+			_, conf := boundsOf(h.fn.Name())
+			jobs = append(jobs, sx.Job{Fn: h.fn, Conf: conf})
+			sp = h.sp
+		}
+		if len(jobs) == 0 {
+			continue
+		}
+		tp := time.Now()
+		pool, err := w.NewPool(jobs[0].Conf, sp, *workers)
+		if err != nil {
+			fmt.Fprintln(os.Stderr, err)
+			return 2
+		}
+		pools[rel] = pool
+		fmt.Printf("[%s] %d machines for %s initialised in %.1fs (%d init notes)\n", prop, len(pool.Ms), rel, time.Since(tp).Seconds(), len(pool.Ms[0].InitNotes))
+		if *verbose {
+			for _, n := range pool.Ms[0].InitNotes {
+				fmt.Println("   init-note:", n)
 			}
 		}
-		r := pool.Explore(h.fn, conf)
+		for i, r := range pool.ExploreAll(jobs) {
+			explored[jobs[i].Fn] = r
+		}
+	}
+	for _, h := range hs {
+		b, conf := boundsOf(h.fn.Name())
+		pool := pools[h.rel]
+		r := explored[h.fn]
 		printResult(r, *verbose)
 		totalPaths += r.Paths
 		totalQueries += r.Solver.Queries
@@ -703,6 +735,7 @@ func cmdCheck(args []string) int {
 		"samples":                       samples,
 		"inconclusive":                  inconclusive,
 		"functions_encoded":             pc.Functions,
+		"callees_path_merged":           pc.Merge,
 		"outside_claim":                 pc.Outside,
 		"known_findings_reported":       len(knownLines),
 		"explanation":                   "states = symbolic paths explored; transitions = SMT queries discharged; traces_validated = native random vectors on which the executor (concrete mode) agreed with the compiled code, plus natively replayed counterexamples",
